@@ -257,8 +257,9 @@ fn c13_outgoing<const K0: u8, const K1: u8, const K2: u8>() {
         n += 1;
     }
     assert!(out.len() == n, "C13: application attributes (one per type), USERNAME, then at most one MI / SHA256 / FINGERPRINT");
+    let nmax = (K0 != 9) as usize + (K1 != 9) as usize + (K2 != 9) as usize + 4;
     let mut k = 0;
-    while k < 8 {
+    while k < nmax {
         if k < n && k < out.len() {
             assert!(out[k] == want[k], "C13/C07: order and values: application attributes in first-insertion order, the configured USERNAME, integrity under the configured key (application-supplied ones replaced), FINGERPRINT last");
         }
@@ -269,66 +270,66 @@ fn c13_outgoing<const K0: u8, const K1: u8, const K2: u8>() {
 }
 
 macro_rules! st_inst {
-    ($($name:ident = $e:expr;)*) => {$(
+    ($($name:ident = $u:expr, $e:expr;)*) => {$(
         #[kani::proof]
-        #[kani::unwind(10)]
+        #[kani::unwind($u)]
         #[kani::stub(alloc::fmt::format, nofmt)]
         fn $name() { $e; }
     )*};
 }
 st_inst! {
-    c07_recv_n0 = c07_recv::<0>();
-    c07_recv_n1 = c07_recv::<1>();
-    c07_recv_n2 = c07_recv::<2>();
-    c07_recv_n3 = c07_recv::<3>();
-    c07_two_replies_unreliable = c07_two_replies();
-    c13_outgoing_p999 = c13_outgoing::<9, 9, 9>();
-    c13_outgoing_p009 = c13_outgoing::<0, 0, 9>();
-    c13_outgoing_p019 = c13_outgoing::<0, 1, 9>();
-    c13_outgoing_p029 = c13_outgoing::<0, 2, 9>();
-    c13_outgoing_p039 = c13_outgoing::<0, 3, 9>();
-    c13_outgoing_p049 = c13_outgoing::<0, 4, 9>();
-    c13_outgoing_p059 = c13_outgoing::<0, 5, 9>();
-    c13_outgoing_p109 = c13_outgoing::<1, 0, 9>();
-    c13_outgoing_p119 = c13_outgoing::<1, 1, 9>();
-    c13_outgoing_p129 = c13_outgoing::<1, 2, 9>();
-    c13_outgoing_p139 = c13_outgoing::<1, 3, 9>();
-    c13_outgoing_p149 = c13_outgoing::<1, 4, 9>();
-    c13_outgoing_p159 = c13_outgoing::<1, 5, 9>();
-    c13_outgoing_p209 = c13_outgoing::<2, 0, 9>();
-    c13_outgoing_p219 = c13_outgoing::<2, 1, 9>();
-    c13_outgoing_p229 = c13_outgoing::<2, 2, 9>();
-    c13_outgoing_p239 = c13_outgoing::<2, 3, 9>();
-    c13_outgoing_p249 = c13_outgoing::<2, 4, 9>();
-    c13_outgoing_p259 = c13_outgoing::<2, 5, 9>();
-    c13_outgoing_p309 = c13_outgoing::<3, 0, 9>();
-    c13_outgoing_p319 = c13_outgoing::<3, 1, 9>();
-    c13_outgoing_p329 = c13_outgoing::<3, 2, 9>();
-    c13_outgoing_p339 = c13_outgoing::<3, 3, 9>();
-    c13_outgoing_p349 = c13_outgoing::<3, 4, 9>();
-    c13_outgoing_p359 = c13_outgoing::<3, 5, 9>();
-    c13_outgoing_p409 = c13_outgoing::<4, 0, 9>();
-    c13_outgoing_p419 = c13_outgoing::<4, 1, 9>();
-    c13_outgoing_p429 = c13_outgoing::<4, 2, 9>();
-    c13_outgoing_p439 = c13_outgoing::<4, 3, 9>();
-    c13_outgoing_p449 = c13_outgoing::<4, 4, 9>();
-    c13_outgoing_p459 = c13_outgoing::<4, 5, 9>();
-    c13_outgoing_p509 = c13_outgoing::<5, 0, 9>();
-    c13_outgoing_p519 = c13_outgoing::<5, 1, 9>();
-    c13_outgoing_p529 = c13_outgoing::<5, 2, 9>();
-    c13_outgoing_p539 = c13_outgoing::<5, 3, 9>();
-    c13_outgoing_p549 = c13_outgoing::<5, 4, 9>();
-    c13_outgoing_p559 = c13_outgoing::<5, 5, 9>();
-    c13_outgoing_p010 = c13_outgoing::<0, 1, 0>();
-    c13_outgoing_p023 = c13_outgoing::<0, 2, 3>();
-    c13_outgoing_p204 = c13_outgoing::<2, 0, 4>();
-    c13_outgoing_p305 = c13_outgoing::<3, 0, 5>();
-    c13_outgoing_p450 = c13_outgoing::<4, 5, 0>();
-    c13_outgoing_p543 = c13_outgoing::<5, 4, 3>();
-    c13_outgoing_p112 = c13_outgoing::<1, 1, 2>();
-    c13_outgoing_p034 = c13_outgoing::<0, 3, 4>();
-    c13_outgoing_p220 = c13_outgoing::<2, 2, 0>();
-    c13_outgoing_p501 = c13_outgoing::<5, 0, 1>();
-    c13_outgoing_p345 = c13_outgoing::<3, 4, 5>();
-    c13_outgoing_p432 = c13_outgoing::<4, 3, 2>();
+    c07_recv_n0 = 5, c07_recv::<0>();
+    c07_recv_n1 = 6, c07_recv::<1>();
+    c07_recv_n2 = 7, c07_recv::<2>();
+    c07_recv_n3 = 8, c07_recv::<3>();
+    c07_two_replies_unreliable = 8, c07_two_replies();
+    c13_outgoing_p999 = 6, c13_outgoing::<9, 9, 9>();
+    c13_outgoing_p009 = 8, c13_outgoing::<0, 0, 9>();
+    c13_outgoing_p019 = 8, c13_outgoing::<0, 1, 9>();
+    c13_outgoing_p029 = 8, c13_outgoing::<0, 2, 9>();
+    c13_outgoing_p039 = 8, c13_outgoing::<0, 3, 9>();
+    c13_outgoing_p049 = 8, c13_outgoing::<0, 4, 9>();
+    c13_outgoing_p059 = 8, c13_outgoing::<0, 5, 9>();
+    c13_outgoing_p109 = 8, c13_outgoing::<1, 0, 9>();
+    c13_outgoing_p119 = 8, c13_outgoing::<1, 1, 9>();
+    c13_outgoing_p129 = 8, c13_outgoing::<1, 2, 9>();
+    c13_outgoing_p139 = 8, c13_outgoing::<1, 3, 9>();
+    c13_outgoing_p149 = 8, c13_outgoing::<1, 4, 9>();
+    c13_outgoing_p159 = 8, c13_outgoing::<1, 5, 9>();
+    c13_outgoing_p209 = 8, c13_outgoing::<2, 0, 9>();
+    c13_outgoing_p219 = 8, c13_outgoing::<2, 1, 9>();
+    c13_outgoing_p229 = 8, c13_outgoing::<2, 2, 9>();
+    c13_outgoing_p239 = 8, c13_outgoing::<2, 3, 9>();
+    c13_outgoing_p249 = 8, c13_outgoing::<2, 4, 9>();
+    c13_outgoing_p259 = 8, c13_outgoing::<2, 5, 9>();
+    c13_outgoing_p309 = 8, c13_outgoing::<3, 0, 9>();
+    c13_outgoing_p319 = 8, c13_outgoing::<3, 1, 9>();
+    c13_outgoing_p329 = 8, c13_outgoing::<3, 2, 9>();
+    c13_outgoing_p339 = 8, c13_outgoing::<3, 3, 9>();
+    c13_outgoing_p349 = 8, c13_outgoing::<3, 4, 9>();
+    c13_outgoing_p359 = 8, c13_outgoing::<3, 5, 9>();
+    c13_outgoing_p409 = 8, c13_outgoing::<4, 0, 9>();
+    c13_outgoing_p419 = 8, c13_outgoing::<4, 1, 9>();
+    c13_outgoing_p429 = 8, c13_outgoing::<4, 2, 9>();
+    c13_outgoing_p439 = 8, c13_outgoing::<4, 3, 9>();
+    c13_outgoing_p449 = 8, c13_outgoing::<4, 4, 9>();
+    c13_outgoing_p459 = 8, c13_outgoing::<4, 5, 9>();
+    c13_outgoing_p509 = 8, c13_outgoing::<5, 0, 9>();
+    c13_outgoing_p519 = 8, c13_outgoing::<5, 1, 9>();
+    c13_outgoing_p529 = 8, c13_outgoing::<5, 2, 9>();
+    c13_outgoing_p539 = 8, c13_outgoing::<5, 3, 9>();
+    c13_outgoing_p549 = 8, c13_outgoing::<5, 4, 9>();
+    c13_outgoing_p559 = 8, c13_outgoing::<5, 5, 9>();
+    c13_outgoing_p010 = 9, c13_outgoing::<0, 1, 0>();
+    c13_outgoing_p023 = 9, c13_outgoing::<0, 2, 3>();
+    c13_outgoing_p204 = 9, c13_outgoing::<2, 0, 4>();
+    c13_outgoing_p305 = 9, c13_outgoing::<3, 0, 5>();
+    c13_outgoing_p450 = 9, c13_outgoing::<4, 5, 0>();
+    c13_outgoing_p543 = 9, c13_outgoing::<5, 4, 3>();
+    c13_outgoing_p112 = 9, c13_outgoing::<1, 1, 2>();
+    c13_outgoing_p034 = 9, c13_outgoing::<0, 3, 4>();
+    c13_outgoing_p220 = 9, c13_outgoing::<2, 2, 0>();
+    c13_outgoing_p501 = 9, c13_outgoing::<5, 0, 1>();
+    c13_outgoing_p345 = 9, c13_outgoing::<3, 4, 5>();
+    c13_outgoing_p432 = 9, c13_outgoing::<4, 3, 2>();
 }
